@@ -50,6 +50,35 @@ def constructs_cache(ctx, b):
     return ctx.roles.cache in ty_local_adts(b.j["output"]) and b.j["output"].get("k") == "adt" and b.j["output"]["name"] == ctx.roles.cache
 
 
+def writers_reached(ctx, b):
+    """[(path, body, [effect descriptions])] for every body reachable from b that writes cache/entry memory"""
+    eff, cg = ctx.eff, ctx.cg
+    bad = []
+    for p, body in cg.reach(b).items():
+        d = eff.direct[p]
+        kinds = []
+        if any(via for (_f, _b, _s, via) in d["w_cache"]):
+            kinds.append("writes cache field " + ",".join(sorted({f for (f, _b, _s, via) in d["w_cache"] if via})))
+        if any(via for (_f, _b, _s, via) in d["w_entry"]):
+            kinds.append("writes Entry." + ",".join(sorted({f for (f, _b, _s, via) in d["w_entry"] if via})) + " through a pointer")
+        if d["raw_mut"]:
+            kinds.append("creates &mut / writes through *mut Entry")
+        if d["free"]:
+            kinds.append("frees an Entry")
+        if d["copy_out"]:
+            kinds.append("bitwise copy-out of an Entry")
+        if d["swap_table"]:
+            kinds.append("swaps a RawTable")
+        for (cls, c) in d["table"]:
+            if cls in ("insert", "insert_grow", "remove", "drain", "clear", "into_iter"):
+                kinds.append("RawTable %s" % cls)
+        for c in d["unmodelled"]:
+            kinds.append("unmodelled external %s" % c.callee)
+        if kinds:
+            bad.append((p, body, kinds))
+    return bad
+
+
 def run(ctx, res):
     if not ctx.require_roles(res):
         return
@@ -64,29 +93,7 @@ def run(ctx, res):
             continue
         reach = cg.reach(b)
         res.count("C19.2a entry-point x reachable-body", len(reach))
-        bad = []
-        for p, body in reach.items():
-            d = eff.direct[p]
-            kinds = []
-            if any(via for (_f, _b, _s, via) in d["w_cache"]):
-                kinds.append("writes cache field " + ",".join(sorted({f for (f, _b, _s, via) in d["w_cache"] if via})))
-            if any(via for (_f, _b, _s, via) in d["w_entry"]):
-                kinds.append("writes Entry." + ",".join(sorted({f for (f, _b, _s, via) in d["w_entry"] if via})) + " through a pointer")
-            if d["raw_mut"]:
-                kinds.append("creates &mut / writes through *mut Entry")
-            if d["free"]:
-                kinds.append("frees an Entry")
-            if d["copy_out"]:
-                kinds.append("bitwise copy-out of an Entry")
-            if d["swap_table"]:
-                kinds.append("swaps a RawTable")
-            for (cls, c) in d["table"]:
-                if cls in ("insert", "insert_grow", "remove", "drain", "clear", "into_iter"):
-                    kinds.append("RawTable %s" % cls)
-            for c in d["unmodelled"]:
-                kinds.append("unmodelled external %s" % c.callee)
-            if kinds:
-                bad.append((p, body, kinds))
+        bad = writers_reached(ctx, b)
         ok = not bad
         for (p, body, kinds) in bad:
             chain = cg.find_path(b, lambda x, p=p: x.path == p) or [b.path, p]
